@@ -98,6 +98,30 @@ CHECKS.update({
          "DESIGN.md section 3 C09"),
 })
 
+PROC_NOTE = "Hook: build tag verif (ConnectToAmf adopts an inherited AF_UNIX/SOCK_SEQPACKET socket; the sandbox kernel has no SCTP). The reference AMF decodes with ref/per + ref/nas and derives keys with ref/sec; the ngapType struct tags are its ASN.1 schema (asserted by C03's table)."
+CHECKS.update({
+ "C01": ("exploration",
+         "conversation monitor: the unmodified emulator process (main() included) talks to a reference AMF over a socketpair; every uplink message is decoded independently and checked online against a trace specification (IEs, identifiers, SUCI/PLMN, RES*=XRES*, header types, MAC, COUNT+1)",
+         "Generated valid configurations (IMSI lengths, 2|3-digit MNC, OP/OPc variants, gNB id bit lengths 22..32, names 1..150) x AMF choices (RAND, SQN, AMF field, AMF-UE-NGAP-IDs at power-of-two boundaries, ngKSI, optional downlink IEs, Registration Accept options) are run as real processes in test mode; the first failed check of the trace specification, a non-zero exit, a missing banner or a blocked emulator is the verdict.",
+         PROC_NOTE + " NEA0/NIA2 only (what the emulator offers).",
+         "DESIGN.md section 3 C01"),
+ "C02": ("exploration",
+         "conversation monitor over whole lifecycles (count vectors incl. every count-larger-than-prerequisite pattern) plus offline history checks (exactly-once per UE index vs independently recomputed clamps, identity, PSI consistency, COUNT never reused) and a procedure driver comparing returned (UE IP, TEID, UPF) with the network's values",
+         "Process-level runs in test mode with count vectors and SMF choices (UE IPv4/TEID/UPF corners, QoS rule lengths, optional Accept IEs, AMBR) are checked online by the reference AMF/SMF automaton and offline over the recorded history; a child-process procedure driver calls RegisterUE/EstablishPDU/ReleasePDU/DeregisterUE directly and compares return values and UE context with the network's view.",
+         PROC_NOTE + " Main sweep keeps IMSI tail + population <= 255; the overflow is a recorded finding (psi-from-supi-overflow).",
+         "DESIGN.md section 3 C02"),
+ "C18": ("exploration",
+         "runtime monitor at three boundaries: the real GetConfiguration on generated YAML (24 fields compared), the real binary with that file (hook log for the ConnectToAmf arguments, reference AMF for every other value), and the real binary under enumerated argument vectors (banner, exit status, hook log empty and zero bytes at the AMF)",
+         "Generated configuration files (quoting styles, escapes, numeric extremes, shuffled keys, comments) are parsed by the real code in child processes; wire cases show where each value arrives; all argument vectors of length 0..2 over an 8-word alphabet (length 3 sampled) must select traffic mode only for [] and test mode only for [-t] and otherwise start nothing; interface names are observed through the fail-fast path and, where XDP works on the idle ifb0/ifb1, one traffic-mode run shows ue_number registrations.",
+         PROC_NOTE + " Interface values: non-existent names and ifb0/ifb1 only.",
+         "DESIGN.md section 3 C18"),
+ "C19": ("fault_enumeration",
+         "fault injection at every consumed downlink message (measured with strace) x 9 fault kinds (close, 8 undecodable-garbage variants) on real emulator processes; oracle = exit status, banner, and a two-sample /proc syscall probe for 'blocked in recvmsg'",
+         "Per scenario the fault-free baseline under strace yields M sent / R read; every k < R except the deliberately ignored message after Registration Complete is faulted once per kind (exhaustive over k per scenario); the emulator must exit non-zero without the banner and must not stay blocked; the procedure driver checks that EstablishPDU reports no session when its own reply is lost or garbage.",
+         PROC_NOTE + " Faults at message boundaries only; SCTP association events cannot be produced on AF_UNIX.",
+         "DESIGN.md section 3 C19"),
+})
+
 NOT_YET = {}
 
 def main():
